@@ -25,7 +25,10 @@ def _tok(n, tier):
                  functions=['value.h: Value::parse_args(const char*, size_t) (tokeniser: whitespace, # comments, bracket groups)'],
                  bounded=f'every input of at most {n} characters over the alphabet letter / [ / ] / space / # / newline (nested data-dependent loops: no invariant proof)')
 TOKENISE = _tok(7, 'quick')
-QUERIES = NAMEQ + [CLASSIFY, LITERALS, TOKENISE, _tok(9, 'thorough'), PREFIX, q('enc_data', 'h_enc_data', 80), q('enc_minimal', 'h_enc_minimal', 80), q('enc_int', 'h_enc_int', 16), q('enc_opcode', 'h_enc_opcode', 16),
+ARGJOIN = Query('arg_bracket_join', 'harness', UTK.unit_argjoin, 'h_argjoin', defines=['VERIF_ARG_N=3', 'VERIF_ARG_LEN=3'], unwind=20, timeout=2400, object_bits=10,
+                functions=['value.h: Value::parse_args(const std::vector<const char*>) (command-line arguments -> values, joining split bracket expressions)'],
+                bounded='at most 3 arguments of at most 3 characters over letter / [ / ]')
+QUERIES = NAMEQ + [CLASSIFY, LITERALS, TOKENISE, ARGJOIN, _tok(9, 'thorough'), PREFIX, q('enc_data', 'h_enc_data', 80), q('enc_minimal', 'h_enc_minimal', 80), q('enc_int', 'h_enc_int', 16), q('enc_opcode', 'h_enc_opcode', 16),
            q('enc_data', 'h_enc_data', 130, 'thorough', 6000), q('enc_minimal', 'h_enc_minimal', 130, 'thorough', 6000)]
 META = {'level': 'proof', 'trusted_base': TRUSTED + ['stubs/enc_env.h: CScript as byte vector with end()-insert, WriteLE16/32 on a little-endian target'],
  'assumptions': ASSUME_COMMON + [
@@ -34,7 +37,7 @@ META = {'level': 'proof', 'trusted_base': TRUSTED + ['stubs/enc_env.h: CScript a
  ],
  'explanation': 'contracts on the real Value::operator>> and CScript push encoders against the minimal-push grammar; lemma: decode(assembled push) = bytes and the interpreter\'s real CheckMinimalPush accepts it'}
 MANIFEST = {
- 'text': 'Tokeniser: for every input of up to 7 characters over letter / [ / ] / space / # / newline the tokens are exactly the maximal separator-free runs, bracket groups atomic (nesting counted), # comments dropped to the end of the line, unclosed groups rejected. Opcode names: every one of the 114 opcode names, with and without OP_, resolves to its protocol byte, OP_xNN to NN, unknown names to none. Literal classification for plain tokens of up to 5 characters. Encoding half of btcc: for every opcode byte, every int64 and every data string (bytes exact for 0..80 quick / 0..130 thorough; push prefix and total length exact for every length up to 70,000) the real Value::operator>> / CScript::operator<< / push_int64 / CScriptNum::serialize append exactly the minimal encoding - one opcode byte; OP_0 / OP_1NEGATE / OP_1..16 or a direct push of the minimal script number; the minimal-form push that places exactly the given bytes on the stack - leave earlier bytes untouched, and every emitted push decodes back to the bytes and passes the interpreter\'s real CheckMinimalPush.',
+ 'text': 'Command-line form: arguments outside brackets are one value each, a bracket expression split over several arguments is joined (single spaces, brackets kept, nesting counted) into one value, no argument is used twice (3 arguments of 3 characters). Tokeniser: for every input of up to 7 characters over letter / [ / ] / space / # / newline the tokens are exactly the maximal separator-free runs, bracket groups atomic (nesting counted), # comments dropped to the end of the line, unclosed groups rejected. Opcode names: every one of the 114 opcode names, with and without OP_, resolves to its protocol byte, OP_xNN to NN, unknown names to none. Literal classification for plain tokens of up to 5 characters. Encoding half of btcc: for every opcode byte, every int64 and every data string (bytes exact for 0..80 quick / 0..130 thorough; push prefix and total length exact for every length up to 70,000) the real Value::operator>> / CScript::operator<< / push_int64 / CScriptNum::serialize append exactly the minimal encoding - one opcode byte; OP_0 / OP_1NEGATE / OP_1..16 or a direct push of the minimal script number; the minimal-form push that places exactly the given bytes on the stack - leave earlier bytes untouched, and every emitted push decodes back to the bytes and passes the interpreter\'s real CheckMinimalPush.',
  'note': 'Token classification beyond 5-character plain tokens, tokeniser inputs beyond 7 (9) characters, the compilation of bracketed sub-scripts inside the Value constructor and inline functions are not applicable (libc string functions); payload bytes beyond the storage bound are modelled by length only.',
  'technique': 'assume/assert contracts on the real encoders sliced from value.h / script.h against a grammar-level spec, plus a decode/CheckMinimalPush lemma; CBMC',
  'design_ref': 'DESIGN.md 6 (C07)'}
